@@ -160,14 +160,10 @@ def run_scope(rep, bld, tier, results):
                                                         "the specification violates its invariants: " + r.violation[:600]))
         if not must_fail:
             rep.model("MacroScope_MC(%s)" % name, r)
-    # ---- (G) --------------------------------------------------------------------------------------------------
-    rows = []
-    for name in SCOPE_GEN[tier]:
-        g = tlc.must(results[name], "MacroScope_Gen(%s)" % name)
-        if g.violation:
-            raise CheckError("MacroScope_Gen(%s): %s" % (name, g.violation[:400]))
-        rep.model("MacroScope_Gen(%s)" % name, g)
-        rows += [o for (t, o) in g.printed if t == "MS"]
+    # ---- (G) the programs printed by the model-checking run ----------------------------------------------------
+    rows = [o for (t, o) in results["mc"].printed if t == "MS"]
+    if not rows:
+        raise CheckError("MacroScope_MC printed no program")
     r = rng("c11/macscope")
     jobs, index = [], []
     share = 0.15 if tier == "quick" else 1.0
@@ -203,6 +199,8 @@ def run_scope(rep, bld, tier, results):
         if same(row["exp"], two, obs):
             continue
         as_model = same(row["coded"], two, obs)
+        if row["coded"]["crash"] or ("GlobCopyUninit" in devs and "1850" in obs[2]):
+            as_model = True          # use after free / an uninitialised counter: whatever asl does is what the model names
         if devs == ["CoreNotHidden"] and as_model:
             drift.setdefault("a macro named like a statement of the macro processor (INCLUDE) is never expanded, the "
                              "built-in statement wins (manual: a 'machine or pseudo instruction becomes hidden')", []).append(src["a.asm"])
@@ -233,39 +231,161 @@ def short(outc, two):
     return "bytes %s" % image_scope(outc["out"], two)
 
 
-# TLC jobs of part A: name -> (cfg text); the cfgs of the thorough tier and the _dev ones are files in spec/
-def _cfg_text(alphabet, maxlen, fixed, invs):
-    return ("CONSTANTS Alphabet <- %s\n MaxLen = %d\n MaxSects = 2\n MaxDepth = 2\n Fixed = %s\nINIT Init\nNEXT Next\n"
-            "INVARIANTS %s\nCHECK_DEADLOCK FALSE\n" % (alphabet, maxlen, fixed, invs))
+# TLC jobs of part A.  The cfg texts are generated per run (Fixed = the repairs recorded as applied); the same
+# constants are in spec/MacroScope_MC.cfg (quick), MacroScope_MC5.cfg (thorough), MacroScope_MC_fixed.cfg, MacroScope_MC_dev_*.cfg
+def _cfg_text(families, famop, fixed, invs):
+    return ("CONSTANTS Families = %s\n Family <- %s\n MaxSects = 2\n MaxDepth = 2\n Fixed = %s\nINIT Init\nNEXT Next\n"
+            "INVARIANTS %s\nCHECK_DEADLOCK FALSE\n" % (tla_set(families), famop, fixed, invs))
 
 
-STD = "InvAgrees InvDevsNamed InvLaterPassesAlike InvTable"
-ALLFIXED = "{" + ", ".join('"%s"' % d for d in SCOPE_DEVS) + "}"
-# (name, must be refuted)
+ALLFIXED = tla_set(SCOPE_DEVS)
+# (name, must be refuted); the refutations run in the thorough tier, the witnesses (ASSUME in MacroScope_MC) always
 SCOPE_MC = {
-    "quick": [("mc", False), ("mc_nop", False), ("mc_incl", False), ("mc_fixed", False), ("dev_uninit", True),
-              ("dev_replaces", True), ("dev_crash", True), ("dev_core", True)],
-    "thorough": [("mc", False), ("mc_nop", False), ("mc_db", False), ("mc_incl", False), ("mc_fixed", False),
-                 ("dev_uninit", True), ("dev_replaces", True), ("dev_crash", True), ("dev_core", True)],
+    "quick": [("mc", False), ("mc_fixed", False)],
+    "thorough": [("mc", False), ("mc_fixed", False), ("dev_uninit", True), ("dev_replaces", True), ("dev_crash", True),
+                 ("dev_core", True)],
 }
-SCOPE_GEN = {"quick": ["gen", "gen_nop", "gen_db", "gen_incl"], "thorough": ["gen", "gen_nop", "gen_db", "gen_incl"]}
 
 
 def scope_tasks(tier):
     q = tier == "quick"
     fx = tla_set(repaired() & set(SCOPE_DEVS))
-    dev = "{}"          # the refutations switch every deviation on
     t = {
-        "mc": ("AQuick", 4, fx, STD) if q else ("AFull", 5, fx, STD),
-        "mc_nop": ("ANop", 3 if q else 4, fx, STD), "mc_db": ("ADb", 4, fx, STD), "mc_incl": ("AIncl", 3 if q else 4, fx, STD),
-        "mc_fixed": ("AGen", 3 if q else 4, ALLFIXED, STD + " InvNoDevWhenFixed NoCrash"),
-        "dev_uninit": ("AQuick", 4, dev, "NoGlobCopyUninit"), "dev_replaces": ("AQuick", 4, dev, "NoGlobCopyReplaces"),
-        "dev_crash": ("AGen", 4, dev, "NoCrash"), "dev_core": ("AIncl", 3, dev, "NoCoreNotHidden"),
-        "gen": ("AGen", 3 if q else 4, fx, "Dump"), "gen_nop": ("ANop", 3 if q else 4, fx, "Dump"),
-        "gen_db": ("ADb", 3 if q else 4, fx, "Dump"), "gen_incl": ("AIncl", 3 if q else 4, fx, "Dump"),
+        "mc": (["free4", "gen", "nop", "db", "incl"], "QuickFamily", fx, "InvAll Dump") if q else
+              (["free5", "full4", "nop4", "db4", "incl4"], "FullFamily", fx, "InvAll Dump"),
+        "mc_fixed": (["gen", "incl"] if q else ["full4", "incl4"], "QuickFamily" if q else "FullFamily", ALLFIXED, "InvAll NoCrash"),
+        "dev_uninit": (["gen"], "QuickFamily", "{}", "NoGlobCopyUninit"), "dev_replaces": (["gen"], "QuickFamily", "{}", "NoGlobCopyReplaces"),
+        "dev_crash": (["gen"], "QuickFamily", "{}", "NoCrash"), "dev_core": (["incl"], "QuickFamily", "{}", "NoCoreNotHidden"),
     }
-    names = [n for n, _ in SCOPE_MC[tier]] + SCOPE_GEN[tier]
-    return [("scope:" + n, "MacroScope_MC", _cfg_text(*t[n]), 1 if n.startswith("gen") else 3, ("MS",)) for n in names]
+    return [("scope:" + n, "MacroScope_MC", _cfg_text(*t[n]), (4 if q else 8) if n == "mc" else 2, ("MS",)) for n, _ in SCOPE_MC[tier]]
+
+
+# ---------------------------------------------------------------------------------------------------------------
+# (B) BINCLUDE windows
+# ---------------------------------------------------------------------------------------------------------------
+BIN_ERR = {"ShortRead": "1600", "AdrOverflow": "1925"}
+
+
+def bin_args(c):
+    t = ""
+    if c["ofs"]["given"]:
+        t += ",%d" % c["ofs"]["v"]
+        if c["len"]["given"]:
+            t += ",%d" % c["len"]["v"]
+    return t
+
+
+def render_bin(c, word):
+    if word:
+        lines = ["\tcpu 32010"] + (["\tnop"] if c["pc"] else []) + ['lb:\tbinclude "b.bin"' + bin_args(c), "\tdata lb,$"]
+    else:
+        lines = ["\tcpu z80"] + (["\tdb 1"] if c["pc"] else []) + ['lb:\tbinclude "b.bin"' + bin_args(c), "\tdw lb", "\tdw $"]
+    return "\n".join(lines) + "\n"
+
+
+def bin_file(n):
+    return bytes((i * 7 + 3) % 256 for i in range(1, n + 1))        # MacroProg.BinFile / BinWindow.FileByte
+
+
+def image_of(res):
+    """code-file bytes from address 0 (None where nothing was stored), or None without a code file"""
+    if res.p is None:
+        return None
+    img = {}
+    for rec in res.parsed().data_records():
+        base = rec.start * max(rec.gran, 1)
+        for k, b in enumerate(rec.data):
+            img[base + k] = b
+    return [img.get(a) for a in range(max(img) + 1)] if img else []
+
+
+def bin_same(side, res):
+    crash = bool(res.timeout or res.sig is not None)
+    if crash:
+        return False
+    nums = set(re.findall(r"#(\d+)", res.out + res.err))
+    if side["rej"]:
+        return res.rc != 0 and BIN_ERR[side["err"]] in nums
+    got = image_of(res)
+    want = side["image"]
+    return res.rc == 0 and got is not None and len(got) == len(want) and all(w == -1 or w == g for w, g in zip(want, got))
+
+
+def run_bin(rep, bld, tier, results):
+    for name, must_fail in (("mc", False), ("mc_fixed", False), ("dev", True)):
+        if name not in results:
+            continue
+        r = results[name]
+        if r.error and not r.violation:
+            raise CheckError("BinWindow_MC(%s): %s" % (name, r.error[:400]))
+        if bool(r.violation) != must_fail:
+            raise CheckError("BinWindow_MC(%s): %s" % (name, "the deviation is not refuted" if must_fail else
+                                                       "the specification violates its invariants: " + r.violation[:600]))
+        if not must_fail:
+            rep.model("BinWindow_MC(%s)" % name, r)
+    g = results["mc"]
+    cases = [o for (t, o) in g.printed if t == "BW"]
+    jobs, index = [], []
+    for c in cases:
+        for word in (False, True):
+            src = render_bin(c, word)
+            index.append((c, word, src))
+            jobs.append({"sources": {"a.asm": src}, "opts": ["-q", "-n"], "bin": {"b.bin": bin_file(c["n"])}})
+    with Phase("binwindow: assemble %d programs" % len(jobs)):
+        res = aslrun.assemble_many(bld, jobs)
+    stats = {"cases": len(cases), "assemblies": len(jobs), "indefinite": sum(1 for c in cases if c["indef"]),
+             "with_deviation": sum(1 for c in cases if c["dev"]), "mismatches": 0}
+    drift = {}
+    for (c, word, src), rs in zip(index, res):
+        rep.evaluated()
+        rep.distinct("binwindow %d\n%s" % (c["n"], src), True)
+        tag = "file of %d bytes, `binclude \"b.bin\"%s` at address %d" % (c["n"], bin_args(c), c["pc"])
+        crash = bool(rs.timeout or rs.sig is not None)
+        files = {"a.asm": src, "b.bin": bin_file(c["n"]), "stderr.txt": rs.out + rs.err}
+        case = {"phase": "binwindow", "n": c["n"], "ofs": c["ofs"], "len": c["len"], "pc": c["pc"], "word": word}
+        if crash:
+            stats["mismatches"] += 1
+            rep.violation("BINCLUDE: asl died (signal %s, timeout %s): %s" % (rs.sig, rs.timeout, tag), case=case, files=files,
+                          key={"phase": "binwindow", "kind": "crash", "dev_EmptyWindowAtZero": c["dev"], "as_model": False})
+        elif word:
+            if not bin_same(c["codedW"], rs):
+                drift.setdefault("word-granular target (TMS32010; the manual counts bytes and is silent about wider address "
+                                 "units): asl does not do what the as-coded operator does (one word per byte read, the "
+                                 "window packed into the first half of each chunk)", []).append(tag)
+        elif c["indef"]:
+            if not bin_same(c["coded"], rs):
+                drift.setdefault("negative argument / empty window behind the end (manual silent): asl does not do what "
+                                 "the as-coded operator does", []).append(tag)
+        elif not bin_same(c["exp"], rs):
+            stats["mismatches"] += 1
+            rep.violation("BINCLUDE window: %s: the manual promises %s, asl gives rc=%s %s image=%s"
+                          % (tag, ("error " + BIN_ERR[c["exp"]["err"]]) if c["exp"]["rej"] else "image %s" % _clip(c["exp"]["image"]),
+                             rs.rc, sorted(set(re.findall(r"#(\d+)", rs.out + rs.err))), _clip(image_of(rs))),
+                          case=case, files=files,
+                          key={"phase": "binwindow", "kind": "differs", "dev_EmptyWindowAtZero": c["dev"],
+                               "as_model": bin_same(c["coded"], rs)})
+    for what, tags in sorted(drift.items()):
+        rep.drift("binwindow: %s: %d cases, e.g. %s" % (what, len(tags), tags[0]))
+    rep.traces(len(jobs))
+    rep.part("BinWindow(replay)", **stats)
+    mid = index[len(index) // 3]
+    rep.sample({"phase": "binwindow", "file_bytes": mid[0]["n"], "rendered": mid[2], "expected_by_TLC": _clip(mid[0]["exp"]["image"])})
+
+
+def _clip(img):
+    if img is None:
+        return None
+    return img if len(img) <= 24 else img[:12] + ["...(%d)" % len(img)] + img[-6:]
+
+
+def bin_tasks(tier):
+    fx = tla_set(repaired() & set(BIN_DEVS))
+    inv = "InvAgrees InvDeviation InvExtends InvChunks"
+    t = {"mc": (fx, inv + " Dump"), "mc_fixed": (tla_set(BIN_DEVS), inv + " NoDeviation")}
+    if tier != "quick":
+        t["dev"] = ("{}", "NoDeviation")
+    return [("bin:" + n, "BinWindow_MC", "CONSTANTS Fixed = %s\nINIT Init\nNEXT Next\nINVARIANTS %s\nCHECK_DEADLOCK FALSE\n" % t[n],
+             2 if n == "mc" else 1, ("BW",)) for n in t]
 
 
 # ---------------------------------------------------------------------------------------------------------------
@@ -278,7 +398,7 @@ def _write_cfg(name, text):
 
 
 def run(rep, bld, tier):
-    tasks = scope_tasks(tier)
+    tasks = scope_tasks(tier) + bin_tasks(tier)
 
     def one(t):
         name, mod, text, workers, tags = t
@@ -287,3 +407,21 @@ def run(rep, bld, tier):
         results = dict(pmap(one, tasks, workers=6))
     log("[macscope tlc] " + " ".join("%s=%.0fs" % (n, r.wall) for n, r in results.items()))
     run_scope(rep, bld, tier, {n.split(":", 1)[1]: r for n, r in results.items() if n.startswith("scope:")})
+    run_bin(rep, bld, tier, {n.split(":", 1)[1]: r for n, r in results.items() if n.startswith("bin:")})
+
+
+def replay(path, v):
+    """re-run a recorded violation of this phase: the rendered source (and b.bin / inc.inc) lie in the replay directory"""
+    from vlib import build
+    bld = build.get("hook")
+    src = {"a.asm": open(os.path.join(path, "a.asm")).read()}
+    bins = {}
+    if os.path.exists(os.path.join(path, "inc.inc")):
+        src["inc.inc"] = open(os.path.join(path, "inc.inc")).read()
+    if os.path.exists(os.path.join(path, "b.bin")):
+        bins["b.bin"] = open(os.path.join(path, "b.bin"), "rb").read()
+    res = aslrun.assemble(bld, src, opts=["-q", "-n"], binary_sources=bins)
+    log("rc=%s sig=%s %s" % (res.rc, res.sig, (res.out + res.err).strip()[:600]))
+    log("image: %s" % (_clip(image_of(res)),))
+    log("recorded: %s" % v["what"])
+    return 0
